@@ -32,3 +32,21 @@ Theorem C04_retry_retransmits_the_request : forall s c id x mid body p rq pp,
   out s' = OTx p (req_hdr mid) body :: out s /\ readyQ s' = rq ++ [p] /\ sendQ s' = [].
 Proof. exact resend_transmits_own_request. Qed.
 Print Assumptions C04_retry_retransmits_the_request.
+
+(* for EVERY state: once a reply matching a registered request has arrived, the stored request is gone -- whatever retry
+   timer fires afterwards (whichever id it carries) re-sends nothing *)
+Theorem C04_no_retransmission_after_reply : forall fixed s p a b c' d payload id cx,
+  wire_key fixed (be_dec [a; b; c'; d]) = Some id ->
+  aget id (ctxByID s) = Some cx ->
+  (exists x, aget cx (ctxs (cancel_send s cx)) = Some x) ->
+  let s' := pipe_recv fixed s p (a :: b :: c' :: d :: payload) in
+  (exists x', aget cx (ctxs s') = Some x' /\ c_reqMsg x' = None /\ c_repMsg x' = Some (id, payload)) /\
+  forall id', resend_message s' cx id' = s'.
+Proof. exact no_resend_after_reply. Qed.
+Print Assumptions C04_no_retransmission_after_reply.
+
+(* the retry timer armed with a transmission is due exactly one retry interval after it (never sooner) *)
+Theorem C04_retry_timer_due : forall s c k ms, exists tm, In tm (timers (fst (arm s c k ms))) /\ tm_id tm = snd (arm s c k ms) /\
+  tm_due tm = now s + ms /\ tm_kind tm = k /\ tm_ctx tm = c.
+Proof. exact arm_due. Qed.
+Print Assumptions C04_retry_timer_due.
